@@ -175,3 +175,56 @@ def _short(r, k):
     if k in ('status', 'logs-prefix'):
         return repr((r['status'], r['logs'][-6:]))[:700]
     return repr(r[k])[:700]
+
+
+# ------------------------------------------------------------------ greedy shrinker for violating programs
+
+def _variants(stmts):
+    """Smaller variants of a statement list: one statement removed, or a compound statement replaced by one of its bodies."""
+    for i, st in enumerate(stmts):
+        yield stmts[:i] + stmts[i + 1:]
+        t = st[0]
+        if t == 'if':
+            for _, body in st[1]:
+                yield stmts[:i] + body + stmts[i + 1:]
+            if st[2] is not None:
+                yield stmts[:i] + st[2] + stmts[i + 1:]
+                yield stmts[:i] + [['if', st[1], None]] + stmts[i + 1:]
+            if len(st[1]) > 1:
+                yield stmts[:i] + [['if', st[1][:-1], st[2]]] + stmts[i + 1:]
+            for k, (c, body) in enumerate(st[1]):
+                for v in _variants(body):
+                    yield stmts[:i] + [['if', st[1][:k] + [[c, v]] + st[1][k + 1:], st[2]]] + stmts[i + 1:]
+            if st[2] is not None:
+                for v in _variants(st[2]):
+                    yield stmts[:i] + [['if', st[1], v]] + stmts[i + 1:]
+        elif t == 'while':
+            for v in _variants(st[2]):
+                yield stmts[:i] + [['while', st[1], v]] + stmts[i + 1:]
+        elif t == 'for':
+            for v in _variants(st[4]):
+                yield stmts[:i] + [['for', st[1], st[2], st[3], v]] + stmts[i + 1:]
+        elif t == 'func':
+            for v in _variants(st[4]):
+                yield stmts[:i] + [['func', st[1], st[2], st[3], v]] + stmts[i + 1:]
+
+
+def shrink(prog, still_fails, budget=400):
+    """Greedy: keep applying the first smaller variant that still violates, within a budget of predicate evaluations."""
+    spent = 0
+    improved = True
+    while improved and spent < budget:
+        improved = False
+        for v in _variants(prog):
+            spent += 1
+            if spent > budget:
+                break
+            try:
+                ok = still_fails(v)
+            except Exception:  # pylint: disable=broad-except
+                ok = False
+            if ok:
+                prog = v
+                improved = True
+                break
+    return prog
